@@ -81,6 +81,7 @@ func runC15(c *Ctx) {
 		c.Has(r3, gp, "code "+code+" returned", `^return:`+code+`, nil$`, 1)
 	}
 	c.Has(r3, "transport.byteToLength", "length byte means 2^(9+n)", `^return:conv:int\(\(1 << \(%b \+ 9\)\)\)$|^return:\(1 << \(%b \+ 9\)\)$`, 1)
+	ruleQueueDefault(c, r3) // transports are interchangeable: every session has a buffered outbound queue
 	c.R.Floor(r3, 16)
 
 	const r4 = "C15.R4 PING is answered by PONG with the same payload"
